@@ -192,7 +192,18 @@ class DilCase:
         if k == "listen":
             return self.dilated[it[1]] and (it[1], it[2]) not in self.listening and self.closed_called[it[1]] is None
         if k == "open":
-            return self.dilated[it[1]] and self.closed_called[it[1]] is None
+            ok = self.dilated[it[1]] and self.closed_called[it[1]] is None
+            if ok and not getattr(self, "relax", False) and (self.P.get("hold_last_open") or [0, 0])[it[1]]:
+                # the last connect() of this side waits until the connection in use has been lost and replaced
+                # at least once (earlier subchannels of the side may still be open then)
+                rest = [x for x in self.remaining_intents if x[0] == "open" and x[1] == it[1]]
+                if len(rest) == 1:
+                    m = self.managers()[it[1]]
+                    c_ = getattr(m, "_connection", None) if m is not None else None
+                    t_ = getattr(c_, "transport", None)
+                    if self.kills < 1 or t_ is None or getattr(t_, "broken", True) or getattr(t_, "lost", True):
+                        return False
+            return ok
         if k in ("write", "sclose", "write_after_close"):
             o, a, _ = self.sub(it[1])
             e = o if it[2] == "o" else a
@@ -397,6 +408,7 @@ class DilCase:
         """issue remaining intents in order (stabilisation), settling in between"""
         if not self.P.get("relay_slow_forever"):
             self.W.net.slow_ports.clear()
+        self.relax = True
         progress = True
         while progress:
             progress = False
